@@ -34,7 +34,7 @@ def load_known():
 
 
 def save_replay(prop: str, case: dict, viol: dict, extra: dict | None = None) -> str:
-    d = os.path.join(ROOT, "out", "replays")
+    d = os.environ.get("VERIF_REPLAY_DIR") or os.path.join(ROOT, "out", "replays")
     os.makedirs(d, exist_ok=True)
     blob = pickle.dumps(case)
     h = hashlib.sha1(blob + viol["key"].encode()).hexdigest()[:12]
@@ -150,8 +150,9 @@ def finish(prop: str, tier: str, seed: int, level: str, agg: dict, failed: list,
         "wall_s": round(time.monotonic() - t0, 2),
         "violations": len(unknown),
     }
-    os.makedirs(os.path.join(ROOT, "evidence"), exist_ok=True)
-    with open(os.path.join(ROOT, "evidence", "%s.json" % prop), "w") as f:
+    evdir = os.environ.get("VERIF_EVIDENCE_DIR") or os.path.join(ROOT, "evidence")
+    os.makedirs(evdir, exist_ok=True)
+    with open(os.path.join(evdir, "%s.json" % prop), "w") as f:
         json.dump(ev, f, indent=1, default=str)
     for _k, (hit, n) in sorted(knownhits.items()):
         print("KNOWN-FINDING: property=%s %s [%s] (%d occurrences this run)" % (prop, hit["summary"], hit["key"], n))
